@@ -110,9 +110,13 @@ class Model:
             self.p.kill()
 
 
-def batch_calls(binary, requests):
+def batch_calls(binary, requests, chunk=150000):
     """Run many oracle-free requests through one driver process; returns decoded answers
     (or ('!', msg) for model-side failures)."""
+    if len(requests) > chunk:
+        out = []
+        for i in range(0, len(requests), chunk): out += batch_calls(binary, requests[i:i + chunk], chunk)
+        return out
     data = ''.join(name + '\t' + enc(arg) + '\n' for name, arg in requests)
     r = subprocess.run([binary, '--batch'], input=data, capture_output=True, text=True)
     out = []
